@@ -11,7 +11,6 @@ import (
 	"io"
 	"net"
 	"net/http"
-	"strings"
 	"sync"
 	"time"
 
@@ -33,18 +32,18 @@ type peer struct {
 	legacy   bool
 	postMode string // legacy: "ok" (202) | "hold" (hijack the POST and hand it to the script as arrival.conn)
 
-	mu       sync.Mutex
-	conns    map[net.Conn]bool
+	mu        sync.Mutex
+	conns     map[net.Conn]bool
 	connState map[net.Conn]http.ConnState
-	hijacked []net.Conn
-	arrivals chan *arrival
-	gets     chan time.Time // listening GET streams that reached the peer (streamable)
-	getConns []net.Conn
-	stream   net.Conn // legacy: the hijacked GET /sse connection
-	streamUp chan struct{}
-	release  chan struct{} // closed at the end of the scenario: stalled handlers leave
-	sid      string
-	armed    string // "" | close | reset: what happens to every connection from now on, right at accept (before the request is read)
+	hijacked  []net.Conn
+	arrivals  chan *arrival
+	gets      chan time.Time // listening GET streams that reached the peer (streamable)
+	getConns  []net.Conn
+	stream    net.Conn // legacy: the hijacked GET /sse connection
+	streamUp  chan struct{}
+	release   chan struct{} // closed at the end of the scenario: stalled handlers leave
+	sid       string
+	armed     string // "" | close | reset: what happens to every connection from now on, right at accept (before the request is read)
 }
 
 // faultyListener ends new connections at accept once the peer is armed.
@@ -339,5 +338,3 @@ func endConn(c net.Conn, kind string) {
 		c.Close()
 	}
 }
-
-var _ = strings.Contains
